@@ -145,7 +145,7 @@ fn read_exact_case<const L: usize, const W: usize>(interrupts: u8) {
         assert!(r == Err(io::ErrorKind::UnexpectedEof));
         assert_eq!(src.pos, L);
     }
-    kani::cover!(src.calls > 2);
+    kani::cover!(L < 2 || src.calls > 2);
 }
 
 // @verif prop=C12 id=O12.1a tier=quick unwind=7 bound="5-byte stream, want 4 bytes; EVERY partition into short reads (no Interrupted)" fns="bgzf::io::reader::default_read_exact"
